@@ -47,7 +47,7 @@ MANIFEST = dict(
     design_ref="5/C19",
 )
 
-KEYS = ["a", "b", "C", "k", "name", "name", "id", "x1", "é"]
+KEYS = ["a", "b", "C", "k", "name", "name", "id", "x1", "é", ".a", "a.b", "-k"]  # plain names may start with a dot or a dash
 STRS = ["", "v", "V", "1", "x y", "Abc", "True", "é", "0", "q"]
 
 
